@@ -50,6 +50,7 @@ type c09Hist struct {
 	trace   []string
 	nfn     int
 	discard int
+	rcv     *types.Named
 }
 
 func (c *c09Hist) log(format string, a ...any) { c.trace = append(c.trace, fmt.Sprintf(format, a...)) }
@@ -216,6 +217,8 @@ func (c *c09Hist) run() {
 	c.cb.NewVar(types.NewSlice(types.Typ[types.Int]), "gslice")
 	c.cb.NewVar(gogen.TyEmptyInterface, "gany")
 	c.pkgLvl["gslice"], c.pkgLvl["gany"] = true, true
+	c.rcv = pkg.NewType("Rcv").InitType(pkg, types.Typ[types.Int])
+	c.pkgLvl["Rcv"] = true
 	steps := 5 + c.r.Intn(12)
 	for s := 0; s < steps; s++ {
 		switch c.r.Intn(10) {
@@ -260,7 +263,19 @@ func (c *c09Hist) run() {
 			if len(results) > 0 {
 				rt = types.NewTuple(results...)
 			}
-			pkg.NewFunc(nil, n, types.NewTuple(params...), rt, false).BodyStart(pkg)
+			var recv *types.Var
+			if c.r.Chance(35) { // a method whose receiver variable may be named like an import (value or pointer receiver)
+				rt := types.Type(c.rcv)
+				if c.r.Chance(50) {
+					rt = types.NewPointer(rt)
+				}
+				recv = pkg.NewParam(token.NoPos, c.freshLocal(used), rt, false)
+				c.log("  receiver %s %s", recv.Name(), rt)
+			}
+			pkg.NewFunc(recv, n, types.NewTuple(params...), rt, false).BodyStart(pkg)
+			if recv != nil {
+				c.cb.VarRef(nil).Val(recv).Assign(1, 1)
+			}
 			for _, p := range params {
 				c.cb.VarRef(nil).Val(p).Assign(1, 1)
 			}
